@@ -55,6 +55,30 @@ def enumerate_states(tier, seed):
         for hf in (0.02, 1.0, 2.0, 8.0, 80.0):
             for hint in (4.0 * r, r, 0.5 * r) + ((0.2 * r,) if tier == "thorough" else ()):
                 S.append({"f": "capsule", "p": [r, hf * r, hint]})
+    if tier == "thorough":
+        seen = {repr(x) for x in S}
+
+        def add(x):
+            if repr(x) not in seen:
+                seen.add(repr(x))
+                S.append(x)
+        # full products of side / radius alphabets (every equal-sides pattern at every scale combination)
+        sides = (0.01, 0.5, 1.0, 1.0 + 1e-12, 2.0, 100.0)
+        for size in itertools.product(sides, repeat=3):
+            add({"f": "box", "p": [list(size)]})
+        for radii in itertools.product((0.01, 0.3, 1.0, 100.0), repeat=3):
+            for o in range(0, 4):
+                add({"f": "ellipsoid", "p": [list(radii), o]})
+        for r in (0.01, 0.03, 0.5, 1.0, 7.0, 100.0):
+            for lf in (0.02, 0.2, 0.5, 1.0, 1.5, 1.9, 1.99, 2.0 * (1 - 1e-6), 2.0, 2.0 * (1 + 1e-6), 2.01, 2.1, 2.5, 3.0, 4.0, 7.0, 10.0, 40.0, 100.0):
+                for hint in (8.0 * r, 2.0 * r, r, 0.7 * r, 0.4 * r, 0.25 * r):
+                    add({"f": "cylinder", "p": [r, lf * r, hint]})
+            for hf in (0.002, 0.02, 0.3, 1.0, 2.0, 3.0, 8.0, 30.0, 80.0):
+                for hint in (8.0 * r, 2.0 * r, r, 0.7 * r, 0.4 * r, 0.25 * r):
+                    add({"f": "capsule", "p": [r, hf * r, hint]})
+        for r in (0.03, 0.2, 3.0, 20.0):
+            for o in orders:
+                add({"f": "sphere", "p": [r, o]})
     return S, {"bound_completed": "%d parameter tuples over the six factories (orders 0-%d, 3-4 resolution hints, scales 1e-2..1e2, all class boundaries)"
                                   % (len(S), max(orders)), "exhaustive": True}
 
@@ -182,9 +206,9 @@ def run_state(desc):
     if not (np.array_equal(np.asarray(rb.vertices_), v) and np.array_equal(np.asarray(rb.tetrahedra_), t) and np.array_equal(np.asarray(rb.potentials_), pot)):
         viol.append(_viol("RigidBody.make_" + f, "mesh_differs_from_factory", {"params": p}))
     if f == "sphere":
-        okpose = np.allclose(rb.body2origin_[:3, 3], T[:3, 3]) and np.allclose(rb.body2origin_[:3, :3], np.eye(3))
+        okpose = np.allclose(rb.body2origin_[:3, 3], T[:3, 3], rtol=0, atol=1e-12) and np.allclose(rb.body2origin_[:3, :3], np.eye(3), rtol=0, atol=1e-12)
     else:
-        okpose = np.allclose(rb.body2origin_, T)
+        okpose = np.allclose(rb.body2origin_, T, rtol=0, atol=1e-12)
     if not okpose:
         viol.append(_viol("RigidBody.make_" + f, "pose_not_stored", {"params": p}))
     if np.max(np.abs(np.asarray(rb.com) - ecom)) > 1e-9 * size:
